@@ -1,4 +1,9 @@
-(* C10/Lemmas.v -- proofs about the world model of Model.v *)
+(* C10/Lemmas.v -- proofs about the world model of Model.v, part 1:
+   association lists, what a registration does to one configuration
+   (cache_reset at the level of a configuration), equations that cut the big
+   model functions (register, class_call) into small steps, and the "move"
+   relation: every model function changes the world by a sequence of a few
+   primitive moves.  The invariants (LemmasInv.v) are proved once per move. *)
 From Coq Require Import ZArith List Bool Lia.
 From AK Require Import Common.Sx Common.Err C10.Sgr C10.SgrLemmas C10.Base gen.C10_Consts C10.Model.
 Import ListNotations.
@@ -32,6 +37,32 @@ Proof.
   destruct (Z.eqb_spec a k) as [->|_]; [intros [= ->]; left; reflexivity|intros H; right; auto].
 Qed.
 
+Lemma zfind_none_notin {A} k (l : list (Z * A)) v : zfind k l = None -> ~ In (k, v) l.
+Proof.
+  induction l as [|[a x] l IH]; [intros _ []|]. cbn [zfind].
+  destruct (Z.eqb_spec a k) as [->|Hn]; [discriminate|].
+  intros H [E|Hin]; [injection E as -> _; congruence|exact (IH H Hin)].
+Qed.
+
+Lemma zfind_none_zdel {A} k (l : list (Z * A)) : zfind k l = None -> zdel k l = l.
+Proof.
+  induction l as [|[a x] l IH]; [reflexivity|]. cbn [zfind zdel filter fst].
+  destruct (Z.eqb_spec a k) as [->|Hn]; [discriminate|]. cbn [negb]. intros H.
+  f_equal. exact (IH H).
+Qed.
+
+Lemma In_zdel {A} k k' (v : A) l : In (k, v) (zdel k' l) <-> In (k, v) l /\ k <> k'.
+Proof.
+  unfold zdel. rewrite filter_In. cbn [fst]. destruct (Z.eqb_spec k k'); cbn [negb]; intuition congruence.
+Qed.
+
+Lemma zdel_idem {A} k (l : list (Z * A)) : zdel k (zdel k l) = zdel k l.
+Proof.
+  induction l as [|[a x] l IH]; [reflexivity|]. cbn [zdel filter fst].
+  destruct (Z.eqb_spec a k) as [->|Hn]; cbn [negb]; [exact IH|].
+  cbn [filter fst]. destruct (Z.eqb_spec a k); [congruence|]. cbn [negb]. f_equal. exact IH.
+Qed.
+
 Lemma zmem_In k l : zmem k l = false -> ~ In k l.
 Proof.
   unfold zmem. intros H Hin. assert (existsb (Z.eqb k) l = true) as E.
@@ -39,154 +70,255 @@ Proof.
   congruence.
 Qed.
 
+Lemma zfind_app_some {A} k (l x : list (Z * A)) v : zfind k l = Some v -> zfind k (l ++ x) = Some v.
+Proof.
+  induction l as [|[a y] l IH]; [discriminate|]. cbn [zfind app].
+  destruct (a =? k); [auto|exact IH].
+Qed.
+
 (* ------------------------------------------------------------------ *)
-(* cache_reset: a configuration never keeps a palette built from an older map *)
+(* one configuration: what registrations do                             *)
+
+(* named colours only: the colour description language of the model *)
+Definition descr_ok (d : descr) : Prop :=
+  match d_fg d with FCol n => 0 <= n <= 7 | _ => True end.
+Definition smap_ok (m : list (synt * descr)) : Prop := Forall (fun it => descr_ok (snd it)) m.
+
+Definition descr_okb (d : descr) : bool :=
+  match d_fg d with FCol n => (0 <=? n) && (n <=? 7) | _ => true end.
+
+Lemma descr_okb_ok d : descr_okb d = true -> descr_ok d.
+Proof.
+  unfold descr_okb, descr_ok. destruct (d_fg d); auto. intros H. apply andb_prop in H as [A B].
+  apply Z.leb_le in A. apply Z.leb_le in B. lia.
+Qed.
+
+Lemma smap_okb_ok m : forallb (fun it => descr_okb (snd it)) m = true -> smap_ok m.
+Proof.
+  intros H. apply Forall_forall. intros it Hin. apply descr_okb_ok.
+  rewrite forallb_forall in H. exact (H it Hin).
+Qed.
+
+(* a step of a configuration: its no_color flag stays, the syntax map is only
+   extended, and whenever the map changes the palette cache is empty *)
+Definition conf_step (cf cf' : conf) : Prop :=
+  c_nocolor cf' = c_nocolor cf /\
+  ((exists x, c_smap cf' = c_smap cf ++ x) /\ incl (c_reg cf) (c_reg cf')) /\
+  (smap_ok (c_smap cf) -> smap_ok (c_smap cf')) /\
+  ((c_smap cf' = c_smap cf /\ c_cache cf' = c_cache cf) \/ c_cache cf' = []).
+
+Lemma conf_step_refl cf : conf_step cf cf.
+Proof. repeat split; auto; [exists []; symmetry; apply app_nil_r|apply incl_refl]. Qed.
+
+Lemma conf_step_trans a b c : conf_step a b -> conf_step b c -> conf_step a c.
+Proof.
+  intros (N1 & ((x1 & X1) & R1) & O1 & C1) (N2 & ((x2 & X2) & R2) & O2 & C2).
+  split; [|split; [split|split]].
+  - congruence.
+  - exists (x1 ++ x2). rewrite X2, X1. symmetry. apply app_assoc.
+  - eapply incl_tran; eassumption.
+  - auto.
+  - destruct C2 as [[S2 K2]|K2]; [|right; exact K2].
+    destruct C1 as [[S1 K1]|K1]; [left; split; congruence|right; congruence].
+Qed.
+
+Lemma conf_step_fields cf r h : incl (c_reg cf) r -> conf_step cf (mkConf (c_nocolor cf) (c_smap cf) r (c_cache cf) h).
+Proof. intros Hr. repeat split; auto. exists []. symmetry. apply app_nil_r. Qed.
+
+Lemma add_raw_step cf items : smap_ok items -> conf_step cf (fst (add_raw cf items)).
+Proof.
+  intros Hit. unfold add_raw.
+  destruct (filter (fun it => negb (zhas (fst it) (c_smap cf))) items) as [|x r] eqn:E; cbn [fst].
+  - apply conf_step_refl.
+  - rewrite <- E. split; [reflexivity|]. split; [split|split]; cbn [c_nocolor c_smap c_cache c_reg].
+    + eexists. reflexivity.
+    + apply incl_refl.
+    + intros H. apply Forall_app. split; [exact H|]. apply Forall_forall. intros it Hin.
+      apply filter_In in Hin as [Hin _]. unfold smap_ok in Hit. rewrite Forall_forall in Hit. exact (Hit it Hin).
+    + right. reflexivity.   (* computes with reset_cache_on_new = true (reset_on_new) *)
+Qed.
+
+(* snd (add_raw ..) = false: nothing at all changed *)
+Lemma add_raw_false cf items : snd (add_raw cf items) = false -> fst (add_raw cf items) = cf.
+Proof. unfold add_raw. destruct (filter _ items); cbn [fst snd]; [reflexivity|discriminate]. Qed.
+
+(* the class table read from the source only uses named colours *)
+Lemma class_defaults_ok K d : k_defaults (cinfo K) = Some d -> smap_ok d.
+Proof.
+  assert (forallb (fun Ki => match k_defaults (snd Ki) with
+                             | Some d => forallb (fun it => descr_okb (snd it)) d | None => true end) class_table = true)
+    as H by (vm_compute; reflexivity).
+  unfold cinfo. destruct (zfind K class_table) as [i|] eqn:E; [|discriminate].
+  intros Hd. apply zfind_In in E. rewrite forallb_forall in H. specialize (H _ E). cbn [snd] in H.
+  rewrite Hd in H. apply smap_okb_ok. exact H.
+Qed.
+
+Lemma builtin_ok : smap_ok builtin_config.
+Proof. apply smap_okb_ok. vm_compute. reflexivity. Qed.
+
+(* Palette.register_in_colors_conf *)
+Lemma register_raw_step fuel : forall cf K, conf_step cf (fst (register_raw fuel cf K)).
+Proof.
+  induction fuel as [|f IH]; intros cf K; cbn [register_raw]; [apply conf_step_refl|].
+  destruct (zmem K (c_reg cf)); [apply conf_step_refl|].
+  set (stepf := fun (st : conf * bool) (P : Z) => let r := register_raw f (fst st) P in (fst r, snd st || snd r)).
+  assert (forall ps st, conf_step cf (fst st) -> conf_step cf (fst (fold_left stepf ps st))) as Hfold.
+  { induction ps as [|P ps IHp]; intros st Hst; [exact Hst|]. cbn [fold_left]. apply IHp.
+    unfold stepf. cbn zeta. cbn [fst]. eapply conf_step_trans; [exact Hst|apply IH]. }
+  specialize (Hfold (k_parents (cinfo K)) (cf, false) (conf_step_refl cf)).
+  remember (fold_left stepf (k_parents (cinfo K)) (cf, false)) as st1 eqn:E1. clear E1.
+  destruct (k_defaults (cinfo K)) as [d|] eqn:Ed; [|exact Hfold].
+  cbn zeta. cbn [fst]. eapply conf_step_trans; [exact Hfold|].
+  eapply conf_step_trans; [apply (conf_step_fields (fst st1) (K :: c_reg (fst st1)) (c_held (fst st1))); apply incl_tl; apply incl_refl|].
+  apply add_raw_step. exact (class_defaults_ok K d Ed).
+Qed.
+
+(* ---- registering a class twice: the second time nothing is new, whatever
+   was registered in between ---- *)
+Definition conf_ext (a b : conf) : Prop :=
+  (exists x, c_smap b = c_smap a ++ x) /\ incl (c_reg a) (c_reg b).
+
+Lemma conf_ext_refl a : conf_ext a a.
+Proof. split; [exists []; symmetry; apply app_nil_r|apply incl_refl]. Qed.
+
+Lemma conf_ext_trans a b c : conf_ext a b -> conf_ext b c -> conf_ext a c.
+Proof.
+  intros [(x1 & X1) R1] [(x2 & X2) R2]. split; [|eapply incl_tran; eassumption].
+  exists (x1 ++ x2). rewrite X2, X1. symmetry. apply app_assoc.
+Qed.
+
+Lemma conf_step_ext a b : conf_step a b -> conf_ext a b.
+Proof. intros (_ & H & _). exact H. Qed.
+
+Lemma conf_ext_same a b b' : conf_ext a b -> c_smap b' = c_smap b -> incl (c_reg b) (c_reg b') -> conf_ext a b'.
+Proof. intros [(x & X) R] E I. split; [exists x; congruence|eapply incl_tran; eassumption]. Qed.
+
+Lemma zhas_app {A} k (l x : list (Z * A)) : zhas k l = true -> zhas k (l ++ x) = true.
+Proof.
+  unfold zhas. destruct (zfind k l) as [v|] eqn:E; [|discriminate]. intros _.
+  rewrite (zfind_app_some _ _ x _ E). reflexivity.
+Qed.
+
+Lemma zhas_In {A} k (v : A) l : In (k, v) l -> zhas k l = true.
+Proof.
+  unfold zhas. induction l as [|[a y] l IH]; [intros []|]. cbn [zfind]. intros [E|H].
+  - injection E as -> _. rewrite Z.eqb_refl. reflexivity.
+  - destruct (a =? k); [reflexivity|exact (IH H)].
+Qed.
+
+Lemma zhas_app_r {A} k (l x : list (Z * A)) : zhas k x = true -> zhas k (l ++ x) = true.
+Proof.
+  unfold zhas. induction l as [|[a y] l IH]; [auto|]. cbn [app zfind]. intros H.
+  destruct (a =? k); [reflexivity|exact (IH H)].
+Qed.
+
+Lemma add_raw_has cf items it : In it items -> zhas (fst it) (c_smap (fst (add_raw cf items))) = true.
+Proof.
+  intros Hin. unfold add_raw.
+  destruct (zhas (fst it) (c_smap cf)) eqn:Eh.
+  - destruct (filter _ items); cbn [fst c_smap]; [exact Eh|apply zhas_app; exact Eh].
+  - assert (In it (filter (fun it => negb (zhas (fst it) (c_smap cf))) items)) as Hf.
+    { apply filter_In. split; [exact Hin|]. rewrite Eh. reflexivity. }
+    destruct (filter (fun it => negb (zhas (fst it) (c_smap cf))) items) as [|x r] eqn:E; [destruct Hf|].
+    cbn [fst c_smap]. apply zhas_app_r. destruct it as [k v]. eapply zhas_In. exact Hf.
+Qed.
+
+Lemma add_raw_noop cf items :
+  (forall it, In it items -> zhas (fst it) (c_smap cf) = true) -> add_raw cf items = (cf, false).
+Proof.
+  intros H. unfold add_raw.
+  destruct (filter (fun it => negb (zhas (fst it) (c_smap cf))) items) as [|x r] eqn:E; [reflexivity|].
+  assert (In x (x :: r)) as Hx by (left; reflexivity). rewrite <- E in Hx.
+  apply filter_In in Hx as [Hx Hn]. rewrite (H x Hx) in Hn. discriminate.
+Qed.
+
+Lemma zmem_true k l : zmem k l = true <-> In k l.
+Proof.
+  unfold zmem. rewrite existsb_exists. split.
+  - intros (x & Hx & E). apply Z.eqb_eq in E. subst x. exact Hx.
+  - intros H. exists k. split; [exact H|apply Z.eqb_refl].
+Qed.
+
+Definition reg_fold (f : nat) (st : conf * bool) (P : Z) : conf * bool :=
+  let r := register_raw f (fst st) P in (fst r, snd st || snd r).
+
+Lemma reg_fold_step f ps : forall st, conf_step (fst st) (fst (fold_left (reg_fold f) ps st)).
+Proof.
+  induction ps as [|P ps IHp]; intros st; [apply conf_step_refl|]. cbn [fold_left].
+  eapply conf_step_trans; [|apply IHp]. unfold reg_fold. cbn zeta. cbn [fst]. apply register_raw_step.
+Qed.
+
+Lemma register_settles f : forall cf K cf2,
+  conf_ext (fst (register_raw f cf K)) cf2 -> c_smap (fst (register_raw f cf2 K)) = c_smap cf2.
+Proof.
+  induction f as [|f IH]; intros cf K cf2 Hext; [reflexivity|].
+  cbn [register_raw] in *.
+  destruct (zmem K (c_reg cf2)) eqn:E2; [reflexivity|].
+  destruct (zmem K (c_reg cf)) eqn:E1.
+  { exfalso. apply zmem_true in E1. destruct Hext as [_ R]. apply R in E1. apply zmem_true in E1. congruence. }
+  fold (reg_fold f) in *.
+  assert (forall ps s0 t0, conf_ext (fst (fold_left (reg_fold f) ps s0)) (fst t0) ->
+                           c_smap (fst (fold_left (reg_fold f) ps t0)) = c_smap (fst t0)) as Hfold.
+  { induction ps as [|P ps IHp]; intros s0 t0 He; [reflexivity|]. cbn [fold_left] in *.
+    assert (conf_ext (fst (reg_fold f s0 P)) (fst t0)) as H1.
+    { eapply conf_ext_trans; [|exact He]. apply conf_step_ext. apply reg_fold_step. }
+    unfold reg_fold at 1 in H1. cbn zeta in H1. cbn [fst] in H1.
+    pose proof (IH _ _ _ H1) as Es.
+    assert (conf_ext (fst (fold_left (reg_fold f) ps (reg_fold f s0 P))) (fst (reg_fold f t0 P))) as H2.
+    { eapply conf_ext_same; [exact He| |].
+      - unfold reg_fold. cbn zeta. cbn [fst]. exact Es.
+      - unfold reg_fold. cbn zeta. cbn [fst]. apply (conf_step_ext _ _ (register_raw_step f (fst t0) P)). }
+    rewrite (IHp _ _ H2). unfold reg_fold. cbn zeta. cbn [fst]. exact Es. }
+  remember (fold_left (reg_fold f) (k_parents (cinfo K)) (cf, false)) as s1 eqn:Es1.
+  destruct (k_defaults (cinfo K)) as [d|] eqn:Ed.
+  - cbn zeta in *. cbn [fst] in *.
+    remember (mkConf (c_nocolor (fst s1)) (c_smap (fst s1)) (K :: c_reg (fst s1)) (c_cache (fst s1)) (c_held (fst s1))) as sa eqn:Esa.
+    assert (conf_ext (fst s1) cf2) as H1.
+    { eapply conf_ext_trans; [|exact Hext]. eapply conf_ext_trans; [|apply conf_step_ext; apply add_raw_step; exact (class_defaults_ok K d Ed)].
+      subst sa. split; cbn [c_smap c_reg]; [exists []; symmetry; apply app_nil_r|apply incl_tl; apply incl_refl]. }
+    subst s1. pose proof (Hfold _ (cf, false) (cf2, false) H1) as Et. cbn [fst] in Et.
+    remember (fold_left (reg_fold f) (k_parents (cinfo K)) (cf2, false)) as t1 eqn:Et1.
+    rewrite add_raw_noop; [cbn [fst c_smap]; exact Et|].
+    intros it Hit. cbn [c_smap]. rewrite Et.
+    pose proof (add_raw_has sa d it Hit) as Hh. destruct Hext as [(x & X) _]. rewrite X. apply zhas_app. exact Hh.
+  - subst s1. exact (Hfold _ (cf, false) (cf2, false) Hext).
+Qed.
+
+(* registered for good: registering K again changes nothing in the syntax map,
+   now and after any further registrations *)
+Definition settled (cf : conf) (K : cls) : Prop :=
+  forall cf2, conf_ext cf cf2 -> c_smap (fst (register_raw reg_fuel cf2 K)) = c_smap cf2.
+
+Lemma settled_after_register cf K : settled (fst (register_raw reg_fuel cf K)) K.
+Proof. intros cf2 H. eapply register_settles. exact H. Qed.
+
+Lemma settled_ext cf cf' K : settled cf K -> conf_ext cf cf' -> settled cf' K.
+Proof. intros H E cf2 E2. apply H. eapply conf_ext_trans; eassumption. Qed.
+
+(* cache_reset, one configuration: after register_in_colors_conf either the
+   syntax map and the palette cache are what they were, or the cache is empty *)
+Lemma register_raw_reset fuel cf K :
+  (c_smap (fst (register_raw fuel cf K)) = c_smap cf /\ c_cache (fst (register_raw fuel cf K)) = c_cache cf)
+  \/ c_cache (fst (register_raw fuel cf K)) = [].
+Proof. destruct (register_raw_step fuel cf K) as (_ & _ & _ & H). exact H. Qed.
 
 Lemma add_raw_reset cf items :
-  (snd (add_raw cf items) = false -> fst (add_raw cf items) = cf) /\
-  (snd (add_raw cf items) = true -> c_cache (fst (add_raw cf items)) = []).
+  (c_smap (fst (add_raw cf items)) = c_smap cf /\ c_cache (fst (add_raw cf items)) = c_cache cf)
+  \/ c_cache (fst (add_raw cf items)) = [].
 Proof.
-  unfold add_raw. destruct (filter _ items); cbn [fst snd]; split; try discriminate; try reflexivity.
-  (* the remaining case computes with reset_cache_on_new = true (reset_on_new) *)
-Qed.
-
-Lemma add_raw_smap cf items :
-  snd (add_raw cf items) = false <-> c_smap (fst (add_raw cf items)) = c_smap cf.
-Proof.
-  unfold add_raw. destruct (filter _ items) as [|x r]; cbn [fst snd c_smap]; split; try reflexivity; try discriminate.
-  intros H. exfalso. rewrite <- (app_nil_r (c_smap cf)) in H at 2. apply app_inv_head in H. discriminate.
-Qed.
-
-(* registration of a palette class: either nothing changed in the map and the
-   cache, or the cache is empty *)
-Definition reg_post (cf : conf) (r : conf * bool) : Prop :=
-  (snd r = false -> c_smap (fst r) = c_smap cf /\ c_cache (fst r) = c_cache cf) /\
-  (snd r = true -> c_cache (fst r) = []).
-
-Lemma reg_post_trans cf st r :
-  reg_post cf st -> reg_post (fst st) r -> reg_post cf (fst r, snd st || snd r).
-Proof.
-  intros [S1 S2] [H1 H2]. unfold reg_post. cbn [fst snd]. split.
-  - intros E. apply orb_false_elim in E as [E1 E2].
-    destruct (S1 E1) as [A B]. destruct (H1 E2) as [C D]. split; [rewrite C; exact A|rewrite D; exact B].
-  - intros E. destruct (snd r) eqn:Er; [apply H2; reflexivity|].
-    rewrite orb_false_r in E. destruct (H1 eq_refl) as [_ ->]. exact (S2 E).
-Qed.
-
-Lemma register_raw_reset fuel : forall cf K, reg_post cf (register_raw fuel cf K).
-Proof.
-  induction fuel as [|f IH]; intros cf K; cbn [register_raw]; [split; [split; reflexivity|discriminate]|].
-  destruct (zmem K (c_reg cf)); [split; [split; reflexivity|discriminate]|].
-  set (step := fun (st : conf * bool) (P : Z) => let r := register_raw f (fst st) P in (fst r, snd st || snd r)).
-  assert (forall ps st, reg_post cf st -> reg_post cf (fold_left step ps st)) as Hfold.
-  { induction ps as [|P ps IHp]; intros st Hst; [exact Hst|]. cbn [fold_left]. apply IHp.
-    unfold step. cbn zeta. apply reg_post_trans; [exact Hst|apply IH]. }
-  assert (reg_post cf (cf, false)) as H0 by (split; [split; reflexivity|discriminate]).
-  specialize (Hfold (k_parents (cinfo K)) (cf, false) H0).
-  set (st1 := fold_left step (k_parents (cinfo K)) (cf, false)) in *.
-  destruct (k_defaults (cinfo K)) as [d|]; [|exact Hfold].
-  cbn zeta. set (cf2 := mkConf _ _ _ _ _).
-  apply reg_post_trans with (st := (cf2, snd st1)).
-  - destruct Hfold as [S1 S2]. split; cbn [fst snd]; unfold cf2; cbn [c_smap c_cache]; auto.
-  - cbn [fst]. destruct (add_raw_reset cf2 d) as [A1 A2]. split; [|exact A2].
-    intros E. rewrite (A1 E). split; reflexivity.
+  unfold add_raw. destruct (filter _ items); cbn [fst c_smap c_cache]; [left; split; reflexivity|right; reflexivity].
 Qed.
 
 (* ------------------------------------------------------------------ *)
-(* the enum cell cache: coherence invariant                             *)
+(* reading and writing the world                                        *)
 
-Definition colour_with (o : pal) (x : list (Z * list (Z * list Z))) : list (Z * list chunk) :=
-  map (fun mc => (fst mc, map (fun at_ => (color_of o (fst at_), snd at_)) (snd mc))) x.
+Lemma conf_of_put_eq w c cf : conf_of (put_conf w c cf) c = cf.
+Proof. unfold conf_of, put_conf. cbn [w_confs set_confs zfind]. rewrite Z.eqb_refl. reflexivity. Qed.
 
-Lemma colour_with_ext o o' x : p_colors o = p_colors o' -> colour_with o x = colour_with o' x.
-Proof. intros H. unfold colour_with, color_of. rewrite H. reflexivity. Qed.
-
-Definition ekeys (w : world) : list Z := flat_map (fun e => map fst (snd e)) (w_enums w).
-
-Section Enum.
-Variable fts : list (Z * ftdef).
-
-(* every cached cell text is what its palette would produce now *)
-Definition inv_enum (w : world) : Prop :=
-  forall ft cache e by_val v pm,
-    zfind ft (w_enums w) = Some cache -> zfind e cache = Some by_val -> zfind v by_val = Some pm ->
-    pm = colour_with (pal_of w e) (ft_texts fts ft v).
-
-(* no palette is synced with the global configuration (synced palettes are
-   recoloured in place) *)
-Definition inv (w : world) : Prop := w_synced w = [] /\ inv_enum w.
-
-(* frame: the enum cache and the colours of the palettes it is keyed by are untouched *)
-Definition frame (w w' : world) : Prop :=
-  w_enums w' = w_enums w /\ w_synced w' = w_synced w /\
-  forall e, In e (ekeys w) -> p_colors (pal_of w' e) = p_colors (pal_of w e).
-
-Lemma frame_refl w : frame w w.
-Proof. repeat split. Qed.
-
-Lemma frame_trans w1 w2 w3 : frame w1 w2 -> frame w2 w3 -> frame w1 w3.
+Lemma conf_of_put_ne w c cf c' : c' <> c -> conf_of (put_conf w c cf) c' = conf_of w c'.
 Proof.
-  intros (E1 & S1 & C1) (E2 & S2 & C2). repeat split; [congruence|congruence|].
-  intros e He. rewrite C2; [apply C1; exact He|]. unfold ekeys in *. rewrite E1. exact He.
-Qed.
-
-Lemma frame_same w w' :
-  w_enums w' = w_enums w -> w_synced w' = w_synced w -> w_heap w' = w_heap w -> frame w w'.
-Proof. intros E S H. repeat split; auto. intros e _. unfold pal_of. rewrite H. reflexivity. Qed.
-
-Lemma key_in w ft cache e by_val :
-  zfind ft (w_enums w) = Some cache -> zfind e cache = Some by_val -> In e (ekeys w).
-Proof.
-  intros H1 H2. unfold ekeys. apply in_flat_map. exists (ft, cache). split; [apply zfind_In; exact H1|].
-  cbn [snd]. apply zfind_In in H2. apply in_map_iff. exists (e, by_val). split; [reflexivity|exact H2].
-Qed.
-
-Lemma inv_frame w w' : inv w -> frame w w' -> inv w'.
-Proof.
-  intros [Hs Hi] (E & S & C). split; [congruence|].
-  intros ft cache e by_val v pm H1 H2 H3. rewrite E in H1.
-  rewrite (Hi _ _ _ _ _ _ H1 H2 H3). apply colour_with_ext. symmetry. apply C.
-  eapply key_in; eassumption.
-Qed.
-
-(* ---- configuration-only steps ---- *)
-Lemma frame_put_conf w c cf : frame w (put_conf w c cf).
-Proof. apply frame_same; reflexivity. Qed.
-
-Lemma frame_gc keyobj w : frame w (gc keyobj w).
-Proof. apply frame_same; reflexivity. Qed.
-
-Lemma resync_nosync w : w_synced w = [] -> frame w (resync w).
-Proof.
-  intros H. unfold resync. destruct (w_global w); [|apply frame_refl].
-  rewrite H. cbn [fold_left]. apply frame_put_conf.
-Qed.
-
-Lemma frame_register w c K : w_synced w = [] -> frame w (register w c K).
-Proof.
-  intros H. unfold register. set (w1 := put_conf w c _).
-  assert (frame w w1) as F by apply frame_put_conf.
-  destruct (_ && _); [|exact F]. eapply frame_trans; [exact F|]. apply resync_nosync. exact H.
-Qed.
-
-Lemma frame_add_items w c items : w_synced w = [] -> frame w (add_items w c items).
-Proof.
-  intros H. unfold add_items. set (w1 := put_conf w c _).
-  assert (frame w w1) as F by apply frame_put_conf.
-  destruct (_ && _); [|exact F]. eapply frame_trans; [exact F|]. apply resync_nosync. exact H.
-Qed.
-
-Lemma frame_get_global w : frame w (fst (get_global w)).
-Proof. unfold get_global. destruct (w_global w); cbn [fst]; apply frame_same; reflexivity. Qed.
-
-(* ---- allocation: with the object as key the new identity is not a cache key ---- *)
-Lemma alloc_fresh w w1 p : alloc true w = Ok (w1, p) ->
-  ~ In p (ekeys w) /\ w1 = set_oracle w (tl (w_oracle w)).
-Proof.
-  unfold alloc. destruct (w_oracle w) as [|i r]; [discriminate|].
-  destruct (zmem i (pinned true w)) eqn:E; [discriminate|]. intros [= <- <-].
-  split; [|reflexivity]. apply zmem_In in E. intros Hin. apply E.
-  unfold pinned, roots. apply in_or_app. left. rewrite !in_app_iff. do 5 right. exact Hin.
+  intros H. unfold conf_of, put_conf. cbn [w_confs set_confs zfind].
+  destruct (Z.eqb_spec c c'); [congruence|]. rewrite zfind_zdel_ne by exact H. reflexivity.
 Qed.
 
 Lemma pal_of_put_ne w p o e : e <> p -> pal_of (put_pal w p o) e = pal_of w e.
@@ -198,228 +330,546 @@ Qed.
 Lemma pal_of_put_eq w p o : pal_of (put_pal w p o) p = o.
 Proof. unfold pal_of, put_pal. cbn [w_heap set_heap zfind]. rewrite Z.eqb_refl. reflexivity. Qed.
 
-Lemma frame_put_fresh w p o : ~ In p (ekeys w) -> frame w (put_pal w p o).
+Lemma put_conf_twice w c cf cf' : put_conf (put_conf w c cf) c cf' = put_conf w c cf'.
 Proof.
-  intros H. repeat split. intros e He. rewrite pal_of_put_ne; [reflexivity|]. intros ->. exact (H He).
+  unfold put_conf. cbn [w_confs set_confs w_heap w_slots w_global w_synced w_enums w_hcmds w_stack w_oracle w_nextc].
+  cbn [zdel filter fst]. rewrite Z.eqb_refl. cbn [negb]. fold (zdel c (zdel c (w_confs w))). rewrite zdel_idem. reflexivity.
 Qed.
 
-Lemma frame_put_same_colors w p o : p_colors o = p_colors (pal_of w p) -> frame w (put_pal w p o).
+(* with no palette synced with the global configuration, the hook of
+   add_new_items (color.py:1198-1201) changes nothing *)
+Lemma resync_nosync w c cf : w_synced w = [] -> is_global (put_conf w c cf) c = true ->
+  resync (put_conf w c cf) = put_conf w c cf.
 Proof.
-  intros H. repeat split. intros e _. destruct (Z.eq_dec e p) as [->|Hn].
-  - rewrite pal_of_put_eq. exact H.
-  - rewrite pal_of_put_ne by exact Hn. reflexivity.
+  intros Hs Hg. unfold resync. unfold is_global in Hg.
+  destruct (w_global (put_conf w c cf)) as [g|]; [|reflexivity].
+  apply Z.eqb_eq in Hg. subst g.
+  change (w_synced (put_conf w c cf)) with (w_synced w). rewrite Hs. cbn [fold_left].
+  rewrite conf_of_put_eq. apply put_conf_twice.
 Qed.
 
-Lemma frame_class_call w copt nocolor K w' p :
-  w_synced w = [] -> class_call true w copt nocolor K false = Ok (w', p) -> frame w w'.
+Lemma register_eq w c K : w_synced w = [] ->
+  register w c K = put_conf w c (fst (register_raw reg_fuel (conf_of w c) K)).
 Proof.
-  intros Hs. unfold class_call. cbn iota.
-  destruct (match copt with Some c => (w, c) | None => get_global w end) as [w1 c] eqn:E1.
-  assert (frame w w1) as F1.
-  { destruct copt; [injection E1 as <- _; apply frame_refl|].
-    replace w1 with (fst (get_global w)) by (rewrite E1; reflexivity). apply frame_get_global. }
-  assert (w_synced w1 = []) as Hs1 by (destruct F1 as (_ & -> & _); exact Hs).
-  cbn iota.
+  intros Hs. unfold register. remember (register_raw reg_fuel (conf_of w c) K) as r eqn:Er. clear Er.
+  destruct (snd r); cbn [andb]; [|reflexivity].
+  destruct (is_global (put_conf w c (fst r)) c) eqn:Eg; [|reflexivity].
+  apply resync_nosync; assumption.
+Qed.
+
+Lemma add_items_eq w c items : w_synced w = [] ->
+  add_items w c items = put_conf w c (fst (add_raw (conf_of w c) items)).
+Proof.
+  intros Hs. unfold add_items. remember (add_raw (conf_of w c) items) as r eqn:Er. clear Er.
+  destruct (snd r); cbn [andb]; [|reflexivity].
+  destruct (is_global (put_conf w c (fst r)) c) eqn:Eg; [|reflexivity].
+  apply resync_nosync; assumption.
+Qed.
+
+(* ------------------------------------------------------------------ *)
+(* _PaletteMeta.__call__ cut into steps                                 *)
+
+Definition cc_pre (w : world) (copt : option cid) : world * cid :=
+  match copt with Some c => (w, c) | None => get_global w end.
+
+Definition cache_put (cf : conf) (K : cls) (p : pid) : conf :=
+  mkConf (c_nocolor cf) (c_smap cf) (c_reg cf) ((K, p) :: zdel K (c_cache cf)) (c_held cf).
+
+Definition cc_store (w5 : world) (c : cid) (nocolor : bool) (K : cls) (p : pid) : world :=
+  if nocolor then set_slots w5 ((K, p) :: w_slots w5)
+  else put_conf w5 c (cache_put (conf_of w5 c) K p).
+
+Definition new_pal (w : world) (c : cid) (nocolor : bool) (K : cls) : pal :=
+  mkPal K (local_colors (conf_of w c) K nocolor) c nocolor [].
+
+Definition cc_new (keyobj : bool) (w3 : world) (c : cid) (nocolor : bool) (K : cls) : res (world * pid) :=
+  match alloc keyobj w3 with
+  | Err e => Err e
+  | Ok (w4, p) => Ok (cc_store (put_pal w4 p (new_pal w3 c nocolor K)) c nocolor K p, p)
+  end.
+
+Lemma class_call_eq keyobj w copt nocolor K :
+  class_call keyobj w copt nocolor K false =
+  if nocolor then
+    match zfind K (w_slots (register (fst (cc_pre w copt)) (snd (cc_pre w copt)) K)) with
+    | Some p => Ok (register (fst (cc_pre w copt)) (snd (cc_pre w copt)) K, p)
+    | None => cc_new keyobj (register (fst (cc_pre w copt)) (snd (cc_pre w copt)) K) (snd (cc_pre w copt)) true K
+    end
+  else
+    match zfind K (c_cache (conf_of (fst (cc_pre w copt)) (snd (cc_pre w copt)))) with
+    | Some p => Ok (fst (cc_pre w copt), p)
+    | None => cc_new keyobj (register (fst (cc_pre w copt)) (snd (cc_pre w copt)) K) (snd (cc_pre w copt)) false K
+    end.
+Proof.
+  unfold class_call. fold (cc_pre w copt). destruct (cc_pre w copt) as [w1 c]. cbn [fst snd].
   destruct nocolor.
-  - set (w2 := register w1 c K).
-    assert (frame w1 w2) as F2 by (apply frame_register; exact Hs1).
-    destruct (zfind K (w_slots w2)) as [q|].
-    + intros [= <- <-]. eapply frame_trans; eassumption.
-    + destruct (alloc true w2) as [[w4 p4]|] eqn:Ea; [|discriminate]. cbn [bind].
-      intros [= <- <-]. destruct (alloc_fresh _ _ _ Ea) as [Hn ->].
-      eapply frame_trans; [exact F1|]. eapply frame_trans; [exact F2|].
-      eapply frame_trans; [apply (frame_same w2 (set_oracle w2 (tl (w_oracle w2)))); reflexivity|].
-      eapply frame_trans; [apply frame_put_fresh; exact Hn|]. apply frame_same; reflexivity.
-  - destruct (zfind K (c_cache (conf_of w1 c))) as [q|].
-    + intros [= <- <-]. exact F1.
-    + set (w3 := register w1 c K).
-      assert (frame w1 w3) as F3 by (apply frame_register; exact Hs1).
-      destruct (alloc true w3) as [[w4 p4]|] eqn:Ea; [|discriminate]. cbn [bind].
-      intros [= <- <-]. destruct (alloc_fresh _ _ _ Ea) as [Hn ->].
-      eapply frame_trans; [exact F1|]. eapply frame_trans; [exact F3|].
-      eapply frame_trans; [apply (frame_same w3 (set_oracle w3 (tl (w_oracle w3)))); reflexivity|].
-      eapply frame_trans; [apply frame_put_fresh; exact Hn|]. apply frame_put_conf.
+  - cbv zeta. destruct (zfind K (w_slots (register w1 c K))); [reflexivity|].
+    unfold cc_new, bind. destruct (alloc keyobj (register w1 c K)) as [[w4 p]|]; reflexivity.
+  - destruct (zfind K (c_cache (conf_of w1 c))); [reflexivity|].
+    unfold cc_new, bind. destruct (alloc keyobj (register w1 c K)) as [[w4 p]|]; reflexivity.
 Qed.
 
-Lemma frame_get_sub w cp K w' p :
-  w_synced w = [] -> get_sub true w cp K = Ok (w', p) -> frame w w'.
+(* id(): the new identity is not the identity of a live object *)
+Lemma alloc_ok keyobj w w1 p : alloc keyobj w = Ok (w1, p) ->
+  ~ In p (pinned keyobj w) /\ w1 = set_oracle w (tl (w_oracle w)).
 Proof.
-  intros Hs. unfold get_sub. destruct (zfind K (p_subs (pal_of w cp))); [intros [= <- <-]; apply frame_refl|].
-  destruct (class_call true w _ _ K false) as [[w1 q]|] eqn:E; [|discriminate]. cbn [bind].
-  intros [= <- <-]. eapply frame_trans; [eapply frame_class_call; eassumption|].
-  apply frame_put_same_colors. reflexivity.
+  unfold alloc. destruct (w_oracle w) as [|i r]; [discriminate|].
+  destruct (zmem i (pinned keyobj w)) eqn:E; [discriminate|]. intros [= <- <-].
+  split; [apply zmem_In; exact E|reflexivity].
 Qed.
 
-(* ---- the cache itself ---- *)
-Definition cell_pure (w : world) (ft e v modi : Z) : list chunk :=
-  match zfind modi (colour_with (pal_of w e) (ft_texts fts ft v)) with Some x => x | None => [] end.
+(* ------------------------------------------------------------------ *)
+(* primitive moves                                                      *)
 
-Lemma enum_cell_sound w ft e v modi :
-  inv w ->
-  snd (enum_cell fts w ft e v v modi) = cell_pure w ft e v modi /\ inv (fst (enum_cell fts w ft e v v modi)).
+Definition add_sub (o : pal) (K : cls) (q : pid) : pal :=
+  mkPal (p_cls o) (p_colors o) (p_conf o) (p_nocolor o) ((K, q) :: p_subs o).
+
+Definition colour_with (o : pal) (x : list (Z * list (Z * list Z))) : list (Z * list chunk) :=
+  map (fun mc => (fst mc, map (fun at_ => (color_of o (fst at_), snd at_)) (snd mc))) x.
+
+Lemma colour_with_ext o o' x : p_colors o = p_colors o' -> colour_with o x = colour_with o' x.
+Proof. intros H. unfold colour_with, color_of. rewrite H. reflexivity. Qed.
+
+(* everything but the allocator's input, the global pointer and the name supply *)
+Definition same_core (w w' : world) : Prop :=
+  w_confs w' = w_confs w /\ w_heap w' = w_heap w /\ w_slots w' = w_slots w /\ w_synced w' = w_synced w /\
+  w_enums w' = w_enums w /\ w_stack w' = w_stack w /\ w_hcmds w' = w_hcmds w.
+
+(* the sub-palette handed to a compound palette is the one its configuration
+   (or, for a no_color palette, the class slot) holds at that moment *)
+Definition sub_ok (w : world) (o : pal) (K : cls) (q : pid) : Prop :=
+  zfind K (p_subs o) = None /\
+  if p_nocolor o then zfind K (w_slots w) = Some q
+  else zfind K (c_cache (conf_of w (p_conf o))) = Some q.
+
+Definition enum_put (w : world) (ft e v : Z) (pm : list (Z * list chunk)) : world :=
+  let cache := match zfind ft (w_enums w) with Some c => c | None => [] end in
+  let by_val := match zfind e cache with Some x => x | None => [] end in
+  set_enums w ((ft, (e, (v, pm) :: by_val) :: zdel e cache) :: zdel ft (w_enums w)).
+
+
+(* ---- palettes held by the running call (stack) or by an HCommand: they and
+   their sub-palettes are alive whatever happens to the caches ---- *)
+Definition held (w : world) : list pid := w_stack w ++ map snd (w_hcmds w).
+Definition hpinned (w : world) : list pid := held w ++ flat_map (subs_of w) (held w).
+
+Lemma held_roots keyobj w x : In x (held w) -> In x (roots keyobj w).
 Proof.
-  intros [Hs Hi]. unfold enum_cell, cell_pure.
-  destruct (zfind ft (w_enums w)) as [cache|] eqn:E1.
-  - destruct (zfind e cache) as [by_val|] eqn:E2.
-    + destruct (zfind v by_val) as [pm|] eqn:E3; cbn [fst snd].
-      * rewrite (Hi _ _ _ _ _ _ E1 E2 E3). split; [reflexivity|split; assumption].
-      * split; [reflexivity|]. split; [exact Hs|].
-        intros ft' cache' e' bv' v' pm'. cbn [w_enums set_enums zfind].
-        destruct (Z.eqb_spec ft ft') as [<-|Hft].
-        -- intros [= <-]. cbn [zfind]. destruct (Z.eqb_spec e e') as [<-|He].
-           ++ intros [= <-]. cbn [zfind]. destruct (Z.eqb_spec v v') as [<-|Hv].
-              ** intros [= <-]. reflexivity.
-              ** intros H3. exact (Hi _ _ _ _ _ _ E1 E2 H3).
-           ++ rewrite zfind_zdel_ne by congruence. intros H2 H3. exact (Hi _ _ _ _ _ _ E1 H2 H3).
-        -- rewrite zfind_zdel_ne by congruence. intros H1 H2 H3. exact (Hi _ _ _ _ _ _ H1 H2 H3).
-    + cbn [zfind fst snd]. split; [reflexivity|]. split; [exact Hs|].
-      intros ft' cache' e' bv' v' pm'. cbn [w_enums set_enums zfind].
-      destruct (Z.eqb_spec ft ft') as [<-|Hft].
-      * intros [= <-]. cbn [zfind]. destruct (Z.eqb_spec e e') as [<-|He].
-        -- intros [= <-]. cbn [zfind]. destruct (Z.eqb_spec v v') as [<-|Hv]; [intros [= <-]; reflexivity|discriminate].
-        -- rewrite zfind_zdel_ne by congruence. intros H2 H3. exact (Hi _ _ _ _ _ _ E1 H2 H3).
-      * rewrite zfind_zdel_ne by congruence. intros H1 H2 H3. exact (Hi _ _ _ _ _ _ H1 H2 H3).
-  - cbn [zfind fst snd]. split; [reflexivity|]. split; [exact Hs|].
-    intros ft' cache' e' bv' v' pm'. cbn [w_enums set_enums zfind].
-    destruct (Z.eqb_spec ft ft') as [<-|Hft].
-    + intros [= <-]. cbn [zfind]. destruct (Z.eqb_spec e e') as [<-|He]; [|discriminate].
-      intros [= <-]. cbn [zfind]. destruct (Z.eqb_spec v v') as [<-|Hv]; [intros [= <-]; reflexivity|discriminate].
-    + rewrite zfind_zdel_ne by congruence. intros H1 H2 H3. exact (Hi _ _ _ _ _ _ H1 H2 H3).
+  unfold held, roots. rewrite !in_app_iff. intros [H|H]; [do 4 right; left; exact H|do 3 right; left; exact H].
 Qed.
 
-(* ---- objects whose enum cells do not alias (ASSUMPTION: values of one field
-   type are pairwise distinct under ==) ---- *)
+Lemma hpinned_pinned keyobj w x : In x (hpinned w) -> In x (pinned keyobj w).
+Proof.
+  unfold hpinned, pinned. cbv zeta. rewrite !in_app_iff, !in_flat_map.
+  intros [H|(h & Hh & Hx)]; [left; apply held_roots; exact H|].
+  right. exists h. split; [apply held_roots; exact Hh|exact Hx].
+Qed.
+
+(* held palettes only gain sub-palettes; their sub-palettes do not change *)
+Definition pal_le (o o' : pal) : Prop :=
+  p_cls o' = p_cls o /\ p_colors o' = p_colors o /\ p_conf o' = p_conf o /\ p_nocolor o' = p_nocolor o /\
+  forall K q, zfind K (p_subs o) = Some q -> zfind K (p_subs o') = Some q.
+
+Lemma pal_le_refl o : pal_le o o.
+Proof. repeat split; auto. Qed.
+
+Definition grows (w w' : world) : Prop :=
+  w_stack w' = w_stack w /\ w_hcmds w' = w_hcmds w /\
+  (forall x, In x (held w) -> pal_le (pal_of w x) (pal_of w' x)) /\
+  (forall h K q, In h (held w) -> zfind K (p_subs (pal_of w h)) = Some q -> p_colors (pal_of w' q) = p_colors (pal_of w q)).
+
+(* light: nothing held or below is touched *)
+Definition light (w w' : world) : Prop :=
+  w_stack w' = w_stack w /\ w_hcmds w' = w_hcmds w /\
+  forall x, In x (hpinned w) -> pal_of w' x = pal_of w x.
+
+Lemma light_refl w : light w w.
+Proof. repeat split. Qed.
+
+Lemma held_eq w w' : w_stack w' = w_stack w -> w_hcmds w' = w_hcmds w -> held w' = held w.
+Proof. unfold held. intros -> ->. reflexivity. Qed.
+
+Lemma light_hpinned w w' x : light w w' -> In x (hpinned w) -> In x (hpinned w').
+Proof.
+  intros (S & H & P) Hx. unfold hpinned in *. rewrite (held_eq _ _ S H).
+  rewrite in_app_iff, in_flat_map in *. destruct Hx as [Hx|(h & Hh & Hx)]; [left; exact Hx|].
+  right. exists h. split; [exact Hh|]. unfold subs_of in *. rewrite P; [exact Hx|].
+  unfold hpinned. apply in_or_app. left. exact Hh.
+Qed.
+
+Lemma light_trans w1 w2 w3 : light w1 w2 -> light w2 w3 -> light w1 w3.
+Proof.
+  intros L1 L2. pose proof L1 as (S1 & H1 & P1). pose proof L2 as (S2 & H2 & P2).
+  repeat split; [congruence|congruence|]. intros x Hx.
+  rewrite P2 by (eapply light_hpinned; eassumption). apply P1. exact Hx.
+Qed.
+
+Lemma light_same_heap w w' :
+  w_stack w' = w_stack w -> w_hcmds w' = w_hcmds w -> w_heap w' = w_heap w -> light w w'.
+Proof. intros S H E. repeat split; auto. intros x _. unfold pal_of. rewrite E. reflexivity. Qed.
+
+Lemma zfind_subs_in w h K q : zfind K (p_subs (pal_of w h)) = Some q -> In q (subs_of w h).
+Proof. intros H. unfold subs_of. apply zfind_In in H. apply in_map_iff. exists (K, q). auto. Qed.
+
+Lemma light_grows w w' : light w w' -> grows w w'.
+Proof.
+  intros (S & H & P). repeat split; auto.
+  - rewrite P; [reflexivity|]. unfold hpinned. apply in_or_app. left. assumption.
+  - rewrite P; [reflexivity|]. unfold hpinned. apply in_or_app. left. assumption.
+  - rewrite P; [reflexivity|]. unfold hpinned. apply in_or_app. left. assumption.
+  - rewrite P; [reflexivity|]. unfold hpinned. apply in_or_app. left. assumption.
+  - rewrite P; [auto|]. unfold hpinned. apply in_or_app. left. assumption.
+  - intros h K q Hh Hz. rewrite P; [reflexivity|]. unfold hpinned. apply in_or_app. right. apply in_flat_map.
+    exists h. split; [exact Hh|]. eapply zfind_subs_in. exact Hz.
+Qed.
+
+Lemma grows_refl w : grows w w.
+Proof. apply light_grows. apply light_refl. Qed.
+
+Lemma grows_trans w1 w2 w3 : grows w1 w2 -> grows w2 w3 -> grows w1 w3.
+Proof.
+  intros (S1 & H1 & P1 & Q1) (S2 & H2 & P2 & Q2).
+  assert (held w2 = held w1) as Eh by (apply held_eq; assumption).
+  repeat split; try congruence.
+  - destruct (P1 x H) as (A & _). destruct (P2 x) as (B & _); [rewrite Eh; exact H|]. congruence.
+  - destruct (P1 x H) as (_ & A & _). destruct (P2 x) as (_ & B & _); [rewrite Eh; exact H|]. congruence.
+  - destruct (P1 x H) as (_ & _ & A & _). destruct (P2 x) as (_ & _ & B & _); [rewrite Eh; exact H|]. congruence.
+  - destruct (P1 x H) as (_ & _ & _ & A & _). destruct (P2 x) as (_ & _ & _ & B & _); [rewrite Eh; exact H|]. congruence.
+  - intros K q Hz. destruct (P1 x H) as (_ & _ & _ & _ & A). destruct (P2 x) as (_ & _ & _ & _ & B); [rewrite Eh; exact H|].
+    apply B. apply A. exact Hz.
+  - intros h K q Hh Hz. rewrite (Q2 h K q); [apply (Q1 h K q Hh Hz)|rewrite Eh; exact Hh|].
+    destruct (P1 h Hh) as (_ & _ & _ & _ & A). apply A. exact Hz.
+Qed.
+
+Section Moves.
+Variable keyobj : bool.
+Variable fts : list (Z * ftdef).
+
+Inductive move : world -> world -> Prop :=
+| MMisc w w' : same_core w w' -> move w w'
+| MConf w c cf' : conf_step (conf_of w c) cf' -> move w (put_conf w c cf')
+| MNewConf w c cf' : c_cache cf' = [] -> smap_ok (c_smap cf') -> move w (put_conf w c cf')
+| MAlloc w p c nc K : ~ In p (pinned keyobj w) -> move w (put_pal w p (new_pal w c nc K))
+| MCache w c K p :
+    zfind K (c_cache (conf_of w c)) = None -> pal_of w p = new_pal w c false K -> settled (conf_of w c) K ->
+    move w (put_conf w c (cache_put (conf_of w c) K p))
+| MSlot w c K p : pal_of w p = new_pal w c true K -> move w (set_slots w ((K, p) :: w_slots w))
+| MSub w cp K q : sub_ok w (pal_of w cp) K q -> move w (put_pal w cp (add_sub (pal_of w cp) K q))
+| MEnum w ft e v :
+    zfind v (match zfind e (match zfind ft (w_enums w) with Some c => c | None => [] end) with Some x => x | None => [] end) = None ->
+    move w (enum_put w ft e v (colour_with (pal_of w e) (ft_texts fts ft v)))
+| MGc w f : move w (set_confs w (filter f (w_confs w))).
+
+Inductive moves : world -> world -> Prop :=
+| MsRefl w : moves w w
+| MsStep w1 w2 w3 : move w1 w2 -> moves w2 w3 -> moves w1 w3.
+
+Lemma moves_one w w' : move w w' -> moves w w'.
+Proof. intros H. eapply MsStep; [exact H|apply MsRefl]. Qed.
+
+Lemma moves_trans w1 w2 w3 : moves w1 w2 -> moves w2 w3 -> moves w1 w3.
+Proof. induction 1 as [|a b c Hm _ IH]; [auto|]. intros H. eapply MsStep; [exact Hm|exact (IH H)]. Qed.
+
+Lemma move_synced w w' : move w w' -> w_synced w' = w_synced w.
+Proof. destruct 1 as [w w' (_ & _ & _ & S & _)| | | | | | | |]; try reflexivity. exact S. Qed.
+
+Lemma moves_synced w w' : moves w w' -> w_synced w' = w_synced w.
+Proof. induction 1 as [|a b c Hm _ IH]; [reflexivity|]. rewrite IH. exact (move_synced _ _ Hm). Qed.
+
+Lemma same_core_refl w : same_core w w.
+Proof. repeat split. Qed.
+
+(* ---- the model functions as sequences of moves ---- *)
+
+Lemma moves_register w c K : w_synced w = [] -> moves w (register w c K).
+Proof.
+  intros Hs. rewrite register_eq by exact Hs. apply moves_one. apply MConf. apply register_raw_step.
+Qed.
+
+Lemma moves_add_items w c items : w_synced w = [] -> smap_ok items -> moves w (add_items w c items).
+Proof.
+  intros Hs Hi. rewrite add_items_eq by exact Hs. apply moves_one. apply MConf. apply add_raw_step. exact Hi.
+Qed.
+
+Lemma dflt_conf_ok held : c_cache (dflt_conf held) = [] /\ smap_ok (c_smap (dflt_conf held)).
+Proof.
+  split; [destruct held; vm_compute; reflexivity|].
+  unfold dflt_conf.
+  destruct (add_raw_step (mkConf false [] [] [] held) builtin_config builtin_ok) as (_ & _ & H & _).
+  apply H. constructor.
+Qed.
+
+Lemma new_conf_ok nocolor init held : smap_ok init ->
+  c_cache (new_conf nocolor init held) = [] /\ smap_ok (c_smap (new_conf nocolor init held)) /\
+  c_nocolor (new_conf nocolor init held) = nocolor.
+Proof.
+  intros Hi. unfold new_conf.
+  pose proof (add_raw_step (mkConf nocolor [] [] [] held) init Hi) as S1.
+  pose proof (add_raw_step (fst (add_raw (mkConf nocolor [] [] [] held) init)) builtin_config builtin_ok) as S2.
+  pose proof (conf_step_trans _ _ _ S1 S2) as (N & _ & O & C).
+  split; [|split].
+  - destruct C as [[_ C]|C]; exact C.
+  - apply O. constructor.
+  - exact N.
+Qed.
+
+Lemma moves_cc_pre w copt : moves w (fst (cc_pre w copt)).
+Proof.
+  destruct copt as [c|]; cbn [cc_pre fst]; [apply MsRefl|].
+  unfold get_global. destruct (w_global w) as [g|]; cbn [fst]; [apply MsRefl|].
+  eapply MsStep; [apply (MNewConf w (w_nextc w) (dflt_conf false)); apply dflt_conf_ok|].
+  apply moves_one. apply MMisc. repeat split.
+Qed.
+
+Lemma zfind_cache_after_register w c K :
+  w_synced w = [] -> zfind K (c_cache (conf_of w c)) = None ->
+  zfind K (c_cache (conf_of (register w c K) c)) = None.
+Proof.
+  intros Hs H. rewrite register_eq by exact Hs. rewrite conf_of_put_eq.
+  destruct (register_raw_reset reg_fuel (conf_of w c) K) as [[_ ->]| ->]; [exact H|reflexivity].
+Qed.
+
+(* what class_call returns: a palette of the class slot (no_color) or of the
+   configuration's cache, built by moves *)
+Definition cc_post (w' : world) (c : cid) (nocolor : bool) (K : cls) (p : pid) : Prop :=
+  if nocolor then zfind K (w_slots w') = Some p else zfind K (c_cache (conf_of w' c)) = Some p.
+
+Lemma light_put_fresh w q o : ~ In q (pinned keyobj w) -> light w (put_pal w q o).
+Proof.
+  intros Hf. repeat split. intros x Hx. apply pal_of_put_ne. intros ->.
+  apply Hf. eapply hpinned_pinned. exact Hx.
+Qed.
+
+Lemma moves_cc_new w c nocolor K w' p :
+  (nocolor = false -> zfind K (c_cache (conf_of w c)) = None /\ settled (conf_of w c) K) ->
+  cc_new keyobj w c nocolor K = Ok (w', p) -> moves w w' /\ cc_post w' c nocolor K p /\ light w w'.
+Proof.
+  intros Hn. unfold cc_new. destruct (alloc keyobj w) as [[w4 q]|] eqn:Ea; [|discriminate].
+  destruct (alloc_ok _ _ _ _ Ea) as [Hfresh ->]. intros [= <- <-].
+  remember (set_oracle w (tl (w_oracle w))) as w4 eqn:E4.
+  assert (same_core w w4) as SC by (subst w4; repeat split).
+  assert (light w w4) as L4 by (subst w4; apply light_same_heap; reflexivity).
+  assert (~ In q (pinned keyobj w4)) as Hf4.
+  { subst w4. exact Hfresh. }
+  assert (new_pal w c nocolor K = new_pal w4 c nocolor K) as En by (subst w4; reflexivity).
+  rewrite En. clear E4 Hfresh En.
+  assert (conf_of w4 c = conf_of w c) as Ec.
+  { unfold conf_of. destruct SC as (-> & _). reflexivity. }
+  pose proof (light_put_fresh w4 q (new_pal w4 c nocolor K) Hf4) as L5.
+  remember (put_pal w4 q (new_pal w4 c nocolor K)) as w5 eqn:E5.
+  assert (pal_of w5 q = new_pal w5 c nocolor K) as Hp.
+  { subst w5. rewrite pal_of_put_eq. reflexivity. }
+  assert (conf_of w5 c = conf_of w4 c) as E54 by (subst w5; reflexivity).
+  assert (moves w w5) as M5.
+  { eapply MsStep; [apply MMisc; exact SC|]. subst w5. apply moves_one. apply MAlloc. exact Hf4. }
+  clear E5. unfold cc_store. destruct nocolor.
+  - split; [|split].
+    + eapply moves_trans; [exact M5|]. apply moves_one. eapply MSlot. exact Hp.
+    + unfold cc_post. cbn [w_slots set_slots zfind]. rewrite Z.eqb_refl. reflexivity.
+    + eapply light_trans; [exact L4|]. eapply light_trans; [exact L5|]. apply light_same_heap; reflexivity.
+  - split; [|split].
+    + eapply moves_trans; [exact M5|]. apply moves_one.
+      apply MCache; [rewrite E54, Ec; apply Hn; reflexivity|exact Hp|rewrite E54, Ec; apply Hn; reflexivity].
+    + unfold cc_post. rewrite conf_of_put_eq. cbn [cache_put c_cache zfind]. rewrite Z.eqb_refl. reflexivity.
+    + eapply light_trans; [exact L4|]. eapply light_trans; [exact L5|]. apply light_same_heap; reflexivity.
+Qed.
+
+Lemma light_cc_pre w copt : light w (fst (cc_pre w copt)).
+Proof.
+  destruct copt as [c|]; cbn [cc_pre fst]; [apply light_refl|].
+  unfold get_global. destruct (w_global w) as [g|]; cbn [fst]; [apply light_refl|].
+  apply light_same_heap; reflexivity.
+Qed.
+
+Lemma light_register w c K : w_synced w = [] -> light w (register w c K).
+Proof. intros Hs. rewrite register_eq by exact Hs. apply light_same_heap; reflexivity. Qed.
+
+Lemma moves_class_call w copt nocolor K w' p :
+  w_synced w = [] -> class_call keyobj w copt nocolor K false = Ok (w', p) ->
+  moves w w' /\ cc_post w' (snd (cc_pre w copt)) nocolor K p /\ light w w'.
+Proof.
+  intros Hs. rewrite class_call_eq.
+  pose proof (moves_cc_pre w copt) as M1. pose proof (light_cc_pre w copt) as L1.
+  remember (fst (cc_pre w copt)) as w1 eqn:E1. remember (snd (cc_pre w copt)) as c eqn:Ec. clear E1 Ec.
+  assert (w_synced w1 = []) as Hs1 by (rewrite (moves_synced _ _ M1); exact Hs).
+  pose proof (moves_register w1 c K Hs1) as M2. pose proof (light_register w1 c K Hs1) as L2.
+  destruct nocolor.
+  - remember (register w1 c K) as w2 eqn:E2. clear E2.
+    destruct (zfind K (w_slots w2)) as [q|] eqn:Ez.
+    + intros [= <- <-]. split; [eapply moves_trans; eassumption|]. split; [exact Ez|eapply light_trans; eassumption].
+    + intros H. destruct (moves_cc_new w2 c true K w' p) as (M3 & P & L3); [discriminate|exact H|].
+      split; [|split; [exact P|]].
+      * eapply moves_trans; [exact M1|]. eapply moves_trans; eassumption.
+      * eapply light_trans; [exact L1|]. eapply light_trans; eassumption.
+  - destruct (zfind K (c_cache (conf_of w1 c))) as [q|] eqn:Ez.
+    + intros [= <- <-]. split; [exact M1|]. split; [exact Ez|exact L1].
+    + pose proof (zfind_cache_after_register w1 c K Hs1 Ez) as Ez2.
+      assert (settled (conf_of (register w1 c K) c) K) as Hst.
+      { rewrite register_eq by exact Hs1. rewrite conf_of_put_eq. apply settled_after_register. }
+      remember (register w1 c K) as w2 eqn:E2. clear E2.
+      intros H. destruct (moves_cc_new w2 c false K w' p) as (M3 & P & L3); [intros _; split; assumption|exact H|].
+      split; [|split; [exact P|]].
+      * eapply moves_trans; [exact M1|]. eapply moves_trans; eassumption.
+      * eapply light_trans; [exact L1|]. eapply light_trans; eassumption.
+Qed.
+
+(* CompoundPalette.get_sub_palette on a held palette *)
+Lemma moves_get_sub w cp K w' p :
+  w_synced w = [] -> In cp (held w) -> get_sub keyobj w cp K = Ok (w', p) ->
+  moves w w' /\ grows w w' /\ zfind K (p_subs (pal_of w' cp)) = Some p.
+Proof.
+  intros Hs Hh. unfold get_sub. destruct (zfind K (p_subs (pal_of w cp))) as [q|] eqn:Ez.
+  - intros [= <- <-]. split; [apply MsRefl|]. split; [apply grows_refl|exact Ez].
+  - destruct (class_call keyobj w (Some (p_conf (pal_of w cp))) (p_nocolor (pal_of w cp)) K false) as [[w1 q]|] eqn:E; [|discriminate].
+    cbn [bind]. intros [= <- <-].
+    destruct (moves_class_call _ _ _ _ _ _ Hs E) as (M1 & P & L1). cbn [cc_pre snd] in P.
+    assert (pal_of w1 cp = pal_of w cp) as Ecp.
+    { destruct L1 as (_ & _ & L). apply L. unfold hpinned. apply in_or_app. left. exact Hh. }
+    fold (add_sub (pal_of w1 cp) K q).
+    split; [|split].
+    + eapply moves_trans; [exact M1|]. apply moves_one. apply MSub. unfold sub_ok. rewrite Ecp.
+      split; [exact Ez|]. unfold cc_post in P. exact P.
+    + eapply grows_trans; [apply light_grows; exact L1|].
+      split; [reflexivity|]. split; [reflexivity|]. split.
+      * intros x Hx. destruct (Z.eq_dec x cp) as [->|Hn].
+        -- rewrite pal_of_put_eq. unfold add_sub. repeat split. intros K' q' Hz. cbn [p_subs zfind].
+           destruct (Z.eqb_spec K K') as [<-|_]; [|exact Hz]. rewrite Ecp in Hz. congruence.
+        -- rewrite pal_of_put_ne by exact Hn. apply pal_le_refl.
+      * intros h K' q' Hh' Hz. destruct (Z.eq_dec q' cp) as [->|Hn].
+        -- rewrite pal_of_put_eq. reflexivity.
+        -- rewrite pal_of_put_ne by exact Hn. reflexivity.
+    + rewrite pal_of_put_eq. unfold add_sub. cbn [p_subs zfind]. rewrite Z.eqb_refl. reflexivity.
+Qed.
+
+(* ---- rendering: moves that keep the held palettes ---- *)
+Definition good (w w' : world) : Prop := moves w w' /\ grows w w'.
+
+Lemma good_refl w : good w w.
+Proof. split; [apply MsRefl|apply grows_refl]. Qed.
+
+Lemma good_trans w1 w2 w3 : good w1 w2 -> good w2 w3 -> good w1 w3.
+Proof. intros [M1 G1] [M2 G2]. split; [eapply moves_trans; eassumption|eapply grows_trans; eassumption]. Qed.
+
+Lemma good_held w w' : good w w' -> held w' = held w.
+Proof. intros [_ (S & H & _)]. apply held_eq; assumption. Qed.
+
+Lemma good_synced w w' : good w w' -> w_synced w' = w_synced w.
+Proof. intros [M _]. apply moves_synced. exact M. Qed.
+
+Lemma good_get_sub w cp K w' p :
+  w_synced w = [] -> In cp (held w) -> get_sub keyobj w cp K = Ok (w', p) -> good w w'.
+Proof. intros Hs Hh E. destruct (moves_get_sub _ _ _ _ _ Hs Hh E) as (M & G & _). split; assumption. Qed.
+
+(* objects whose enum cells do not alias (ASSUMPTION: values of one field
+   type are pairwise distinct under ==) *)
 Definition item_ok (it : item) : Prop :=
   match it with IEnum _ _ vkey lit _ => lit = vkey | _ => True end.
 Definition obj_ok (o : objspec) : Prop := Forall (Forall item_ok) (o_lines o).
 
-Lemma inv_render_item w cp it w' cs :
-  inv w -> item_ok it -> render_item true fts w cp it = Ok (w', cs) -> inv w'.
+Lemma good_enum_cell w ft e v modi : good w (fst (enum_cell fts w ft e v v modi)).
 Proof.
-  intros Hi Hok. destruct it as [[K|] a t|t|ft K vkey lit modi]; cbn [render_item].
-  - destruct (get_sub true w cp K) as [[w1 q]|] eqn:E; [|discriminate]. cbn [bind fst snd].
-    intros [= <- _]. eapply inv_frame; [exact Hi|]. eapply frame_get_sub; [apply Hi|exact E].
-  - intros [= <- _]. exact Hi.
-  - intros [= <- _]. exact Hi.
+  unfold enum_cell.
+  destruct (zfind v (match zfind e (match zfind ft (w_enums w) with Some c => c | None => [] end) with Some x => x | None => [] end)) eqn:E;
+    cbn [fst]; [apply good_refl|].
+  split.
+  - apply moves_one. exact (MEnum w ft e v E).
+  - apply light_grows. apply light_same_heap; reflexivity.
+Qed.
+
+Lemma good_render_item w cp it w' cs :
+  w_synced w = [] -> In cp (held w) -> item_ok it ->
+  render_item keyobj fts w cp it = Ok (w', cs) -> good w w'.
+Proof.
+  intros Hs Hh Hok. destruct it as [[K|] a t|t|ft K vkey lit modi]; cbn [render_item].
+  - destruct (get_sub keyobj w cp K) as [[w1 q]|] eqn:E; [|discriminate]. cbn [bind fst snd].
+    intros [= <- _]. eapply good_get_sub; eassumption.
+  - intros [= <- _]. apply good_refl.
+  - intros [= <- _]. apply good_refl.
   - cbn in Hok. subst lit.
-    destruct (get_sub true w cp K) as [[w1 q]|] eqn:E; [|discriminate]. cbn [bind fst snd].
-    assert (inv w1) as H1 by (eapply inv_frame; [exact Hi|]; eapply frame_get_sub; [apply Hi|exact E]).
-    destruct (enum_cell_sound w1 ft q vkey modi H1) as [_ H2].
-    destruct (enum_cell fts w1 ft q vkey vkey modi) as [w2 c2]. intros [= <- _]. exact H2.
+    destruct (get_sub keyobj w cp K) as [[w1 q]|] eqn:E; [|discriminate]. cbn [bind fst snd].
+    pose proof (good_get_sub _ _ _ _ _ Hs Hh E) as G1.
+    pose proof (good_enum_cell w1 ft q vkey modi) as G2.
+    destruct (enum_cell fts w1 ft q vkey vkey modi) as [w2 c2]. cbn [fst] in G2.
+    intros [= <- _]. eapply good_trans; eassumption.
 Qed.
 
-Lemma inv_render_line l : forall w cp w' cs,
-  inv w -> Forall item_ok l -> render_line true fts w cp l = Ok (w', cs) -> inv w'.
+Lemma good_render_line l : forall w cp w' cs,
+  w_synced w = [] -> In cp (held w) -> Forall item_ok l ->
+  render_line keyobj fts w cp l = Ok (w', cs) -> good w w'.
 Proof.
-  induction l as [|it l IH]; intros w cp w' cs Hi Hok; cbn [render_line]; [intros [= <- _]; exact Hi|].
+  induction l as [|it l IH]; intros w cp w' cs Hs Hh Hok; cbn [render_line]; [intros [= <- _]; apply good_refl|].
   inversion Hok as [|? ? Hit Hl]; subst.
-  destruct (render_item true fts w cp it) as [[w1 c1]|] eqn:E1; [|discriminate]. cbn [bind fst snd].
-  destruct (render_line true fts w1 cp l) as [[w2 c2]|] eqn:E2; [|discriminate]. cbn [bind fst snd].
-  intros [= <- _]. eapply IH; [|exact Hl|exact E2]. eapply inv_render_item; eassumption.
+  destruct (render_item keyobj fts w cp it) as [[w1 c1]|] eqn:E1; [|discriminate]. cbn [bind fst snd].
+  destruct (render_line keyobj fts w1 cp l) as [[w2 c2]|] eqn:E2; [|discriminate]. cbn [bind fst snd].
+  intros [= <- _]. pose proof (good_render_item _ _ _ _ _ Hs Hh Hit E1) as G1.
+  eapply good_trans; [exact G1|]. eapply IH; [| |exact Hl|exact E2].
+  - rewrite (good_synced _ _ G1). exact Hs.
+  - rewrite (good_held _ _ G1). exact Hh.
 Qed.
 
-Lemma inv_render_lines ls : forall w cp w' css,
-  inv w -> Forall (Forall item_ok) ls -> render_lines true fts w cp ls = Ok (w', css) -> inv w'.
+Lemma good_render_lines ls : forall w cp w' css,
+  w_synced w = [] -> In cp (held w) -> Forall (Forall item_ok) ls ->
+  render_lines keyobj fts w cp ls = Ok (w', css) -> good w w'.
 Proof.
-  induction ls as [|l ls IH]; intros w cp w' css Hi Hok; cbn [render_lines]; [intros [= <- _]; exact Hi|].
+  induction ls as [|l ls IH]; intros w cp w' css Hs Hh Hok; cbn [render_lines]; [intros [= <- _]; apply good_refl|].
   inversion Hok as [|? ? Hl Hls]; subst.
-  destruct (render_line true fts w cp l) as [[w1 c1]|] eqn:E1; [|discriminate]. cbn [bind fst snd].
-  destruct (render_lines true fts w1 cp ls) as [[w2 c2]|] eqn:E2; [|discriminate]. cbn [bind fst snd].
-  intros [= <- _]. eapply IH; [|exact Hls|exact E2]. eapply inv_render_line; eassumption.
+  destruct (render_line keyobj fts w cp l) as [[w1 c1]|] eqn:E1; [|discriminate]. cbn [bind fst snd].
+  destruct (render_lines keyobj fts w1 cp ls) as [[w2 c2]|] eqn:E2; [|discriminate]. cbn [bind fst snd].
+  intros [= <- _]. pose proof (good_render_line _ _ _ _ _ Hs Hh Hl E1) as G1.
+  eapply good_trans; [exact G1|]. eapply IH; [| |exact Hls|exact E2].
+  - rewrite (good_synced _ _ G1). exact Hs.
+  - rewrite (good_held _ _ G1). exact Hh.
 Qed.
 
-Lemma inv_touch_subs ks : forall w cp w', inv w -> touch_subs true w cp ks = Ok w' -> inv w'.
+Lemma good_touch_subs ks : forall w cp w',
+  w_synced w = [] -> In cp (held w) -> touch_subs keyobj w cp ks = Ok w' -> good w w'.
 Proof.
-  induction ks as [|K ks IH]; intros w cp w' Hi; cbn [touch_subs]; [intros [= <-]; exact Hi|].
-  destruct (get_sub true w cp K) as [[w1 q]|] eqn:E; [|discriminate]. cbn [bind fst].
-  apply IH. eapply inv_frame; [exact Hi|]. eapply frame_get_sub; [apply Hi|exact E].
+  induction ks as [|K ks IH]; intros w cp w' Hs Hh; cbn [touch_subs]; [intros [= <-]; apply good_refl|].
+  destruct (get_sub keyobj w cp K) as [[w1 q]|] eqn:E; [|discriminate]. cbn [bind fst].
+  intros E2. pose proof (good_get_sub _ _ _ _ _ Hs Hh E) as G1.
+  eapply good_trans; [exact G1|]. eapply IH; [| |exact E2].
+  - rewrite (good_synced _ _ G1). exact Hs.
+  - rewrite (good_held _ _ G1). exact Hh.
 Qed.
 
-Lemma inv_gen_lines w cp o w' ls :
-  inv w -> obj_ok o -> gen_lines true fts w cp o = Ok (w', ls) -> inv w'.
+Lemma good_gen_lines w cp o w' ls :
+  w_synced w = [] -> In cp (held w) -> obj_ok o -> gen_lines keyobj fts w cp o = Ok (w', ls) -> good w w'.
 Proof.
-  intros Hi Hok. unfold gen_lines.
-  destruct (touch_subs true w cp (o_subs o)) as [w1|] eqn:E; [|discriminate]. cbn [bind].
-  apply inv_render_lines; [eapply inv_touch_subs; eassumption|exact Hok].
+  intros Hs Hh Hok. unfold gen_lines.
+  destruct (touch_subs keyobj w cp (o_subs o)) as [w1|] eqn:E; [|discriminate]. cbn [bind].
+  intros E2. pose proof (good_touch_subs _ _ _ _ Hs Hh E) as G1.
+  eapply good_trans; [exact G1|]. eapply good_render_lines; [| |exact Hok|exact E2].
+  - rewrite (good_synced _ _ G1). exact Hs.
+  - rewrite (good_held _ _ G1). exact Hh.
 Qed.
 
-Lemma inv_consume w cp o mode w' ts :
-  inv w -> obj_ok o -> consume true fts w cp o mode = Ok (w', ts) -> inv w'.
+Lemma good_consume w cp o mode w' ts :
+  w_synced w = [] -> In cp (held w) -> obj_ok o -> consume keyobj fts w cp o mode = Ok (w', ts) -> good w w'.
 Proof.
-  intros Hi Hok. unfold consume.
-  destruct (gen_lines true fts w cp o) as [[w1 ls]|] eqn:E1; [|discriminate]. cbn [bind].
-  assert (inv w1) as H1 by (eapply inv_gen_lines; eassumption).
-  destruct (mode =? 0); [intros [= <- _]; exact H1|].
-  destruct (mode =? 1); [intros [= <- _]; exact H1|].
-  destruct (gen_lines true fts w1 cp o) as [[w2 ls2]|] eqn:E2; [|discriminate]. cbn [bind].
-  assert (inv w2) as H2 by (eapply inv_gen_lines; eassumption).
-  destruct (mode =? 2); intros [= <- _]; exact H2.
+  intros Hs Hh Hok. unfold consume.
+  destruct (gen_lines keyobj fts w cp o) as [[w1 ls]|] eqn:E1; [|discriminate]. cbn [bind].
+  pose proof (good_gen_lines _ _ _ _ _ Hs Hh Hok E1) as G1.
+  destruct (mode =? 0); [intros [= <- _]; exact G1|].
+  destruct (mode =? 1); [intros [= <- _]; exact G1|].
+  destruct (gen_lines keyobj fts w1 cp o) as [[w2 ls2]|] eqn:E2; [|discriminate]. cbn [bind].
+  assert (good w1 w2) as G2.
+  { eapply good_gen_lines; [| |exact Hok|exact E2].
+    - rewrite (good_synced _ _ G1). exact Hs.
+    - rewrite (good_held _ _ G1). exact Hh. }
+  destruct (mode =? 2); intros [= <- _]; eapply good_trans; eassumption.
 Qed.
 
-Definition op_ok (o : op) : Prop :=
-  match o with
-  | ORender obj _ _ pa _ _ => obj_ok obj /\ pa <> PSynced
-  | OHelp _ obj => obj_ok obj
-  | _ => True
-  end.
-
-Lemma inv_set_oracle w ids : inv w -> inv (set_oracle w ids).
-Proof. intros H. eapply inv_frame; [exact H|]. apply frame_same; reflexivity. Qed.
-
-Lemma inv_step w o w' ts : inv w -> op_ok o -> step true fts w o = Ok (w', ts) -> inv w'.
+(* PaletteUser._mk_palette without synced palettes *)
+Lemma moves_mk_palette w K pa copt nc w' cp :
+  w_synced w = [] -> pa <> PSynced -> mk_palette keyobj w K pa copt nc = Ok (w', cp) -> moves w w'.
 Proof.
-  intros Hi Hok. destruct o as [c nc init|c|c items|copt|obj copt nc pa mode ids|h ids|h obj]; cbn [step].
-  - intros [= <- _]. eapply inv_frame; [exact Hi|apply frame_put_conf].
-  - intros [= <- _]. eapply inv_frame; [exact Hi|].
-    eapply frame_trans; [apply frame_put_conf|apply frame_gc].
-  - intros [= <- _]. eapply inv_frame; [exact Hi|].
-    eapply frame_trans; [apply frame_add_items; apply Hi|apply frame_gc].
-  - destruct (match copt with Some c => (w, c) | None => _ end) as [w1 c] eqn:E.
-    intros [= <- _]. eapply inv_frame; [exact Hi|].
-    assert (frame w w1) as F1.
-    { destruct copt; injection E as <- _; [apply frame_refl|apply frame_same; reflexivity]. }
-    eapply frame_trans; [exact F1|].
-    eapply frame_trans; [apply (frame_same w1 (set_global w1 (Some c))); reflexivity|].
-    eapply frame_trans; [apply resync_nosync; destruct F1 as (_ & -> & _); apply Hi|apply frame_gc].
-  - destruct Hok as [Hobj Hpa].
-    assert (inv (set_oracle w ids)) as H0 by (apply inv_set_oracle; exact Hi).
-    destruct (mk_palette true (set_oracle w ids) (o_cls obj) pa copt nc) as [[w1 cp]|] eqn:E1; [|discriminate].
-    cbn [bind].
-    assert (inv w1) as H1.
-    { unfold mk_palette in E1. destruct pa as [|c|]; [| |congruence].
-      - eapply inv_frame; [exact H0|]. eapply frame_class_call; [apply H0|exact E1].
-      - destruct (class_call true (set_oracle w ids) (Some c) false (o_cls obj) false) as [[wa pa']|] eqn:Ea; [|discriminate].
-        cbn [bind fst] in E1.
-        assert (inv wa) as Ha by (eapply inv_frame; [exact H0|]; eapply frame_class_call; [apply H0|exact Ea]).
-        destruct nc; [|injection E1 as <- _; exact Ha].
-        eapply inv_frame; [exact Ha|]. eapply frame_class_call; [apply Ha|exact E1]. }
-    destruct (consume true fts (set_stack w1 [cp]) cp obj mode) as [[w2 t2]|] eqn:E2; [|discriminate].
-    cbn [bind fst snd]. intros [= <- _].
-    assert (inv (set_stack w1 [cp])) as H1' by (eapply inv_frame; [exact H1|]; apply frame_same; reflexivity).
-    assert (inv w2) as H2 by (eapply inv_consume; eassumption).
-    eapply inv_frame; [exact H2|].
-    eapply frame_trans; [apply (frame_same w2 (set_stack w2 [])); reflexivity|apply frame_gc].
-  - assert (inv (set_oracle w ids)) as H0 by (apply inv_set_oracle; exact Hi).
-    destruct (class_call true (set_oracle w ids) None false hcmd_cls false) as [[w1 p]|] eqn:E1; [|discriminate].
-    cbn [bind fst snd]. intros [= <- _].
-    eapply inv_frame; [exact H0|]. eapply frame_trans; [eapply frame_class_call; [apply H0|exact E1]|].
-    eapply frame_trans; [apply (frame_same w1 (set_hcmds w1 ((h, p) :: zdel h (w_hcmds w1)))); reflexivity|apply frame_gc].
-  - destruct (zfind h (w_hcmds w)) as [cp|]; [|discriminate].
-    destruct (gen_lines true fts w cp obj) as [[w1 ls]|] eqn:E1; [|discriminate]. cbn [bind fst snd].
-    intros [= <- _]. eapply inv_frame; [eapply inv_gen_lines; eassumption|apply frame_gc].
+  intros Hs Hpa. unfold mk_palette. destruct pa as [|c|]; [| |congruence].
+  - intros E. apply (moves_class_call _ _ _ _ _ _ Hs E).
+  - destruct (class_call keyobj w (Some c) false K false) as [[wa pa']|] eqn:Ea; [|discriminate].
+    cbn [bind fst]. destruct (moves_class_call _ _ _ _ _ _ Hs Ea) as (Ma & _).
+    destruct nc; [|intros [= <- _]; exact Ma].
+    intros E. eapply moves_trans; [exact Ma|].
+    apply (moves_class_call wa None true K w' cp); [rewrite (moves_synced _ _ Ma); exact Hs|exact E].
 Qed.
 
-Lemma inv_run ops : forall w w' outs,
-  inv w -> Forall op_ok ops -> run_ops true fts w ops = Ok (w', outs) -> inv w'.
-Proof.
-  induction ops as [|o ops IH]; intros w w' outs Hi Hok; cbn [run_ops]; [intros [= <- _]; exact Hi|].
-  inversion Hok as [|? ? Ho Hops]; subst.
-  destruct (step true fts w o) as [[w1 t1]|] eqn:E1; [|discriminate]. cbn [bind fst snd].
-  destruct (run_ops true fts w1 ops) as [[w2 t2]|] eqn:E2; [|discriminate]. cbn [bind fst snd].
-  intros [= <- _]. eapply IH; [|exact Hops|exact E2]. eapply inv_step; eassumption.
-Qed.
-
-Lemma inv_w0 : inv w0.
-Proof. split; [reflexivity|]. intros ft cache e bv v pm H. discriminate. Qed.
-
-End Enum.
+End Moves.
